@@ -33,7 +33,7 @@ def plan(tier):
 def floors(tier):
     return {"nontrivial": 40, "held:main": 150, "counter:exact_runs": 150, "counter:tau_runs": 150, "counter:rows_checked": 3000,
             "counter:intervals_checked": 3000, "counter:empty_paths": 10, "counter:states_only_runs": 80, "counter:grids_past_extinction": 20,
-            "class:grid-list": 30, "class:grid-tuple": 30, "class:grid-ndarray": 30, "class:grid-random": 50, "class:grid-uniform": 50,
+            "class:grid-integer-typed": 30, "class:grid-list": 30, "class:grid-tuple": 30, "class:grid-ndarray": 30, "class:grid-random": 50, "class:grid-uniform": 50,
             "class:single-event": 5, "class:single-state": 5,
             "reach:SimulateOde._extractObservationAtTime": 300, "reach:SimulateOde._addJumpsBetweenTime": 300}
 
@@ -87,8 +87,16 @@ def run_case(rng, idx, tier, lane, ctx):
         g = np.array([0.0] + sorted(rng.uniform(0, horizon) for _ in range(npts - 1)))
         cls.append("grid-random")
     form = rng.choice(["list", "tuple", "ndarray"])
+    whole = rng.random() < 0.25
+    if whole:
+        # whole-number times (days 0..K) held in an INTEGER dtype / as Python ints
+        K = max(2, int(np.ceil(horizon)))
+        step = max(1, K // 14)
+        g = np.arange(0, K + 1, step).astype(float)
+        cls.append("grid-integer-typed")
     cls.append("grid-" + form)
-    grid_arg = g.tolist() if form == "list" else (tuple(g.tolist()) if form == "tuple" else g)
+    gi = g.astype(int) if whole else g
+    grid_arg = gi.tolist() if form == "list" else (tuple(gi.tolist()) if form == "tuple" else gi)
     wit = []
     nontriv = False
     configs = []
